@@ -3,12 +3,12 @@
 package props
 
 import (
-	"strconv"
 	"errors"
 	"fmt"
 	"io"
 	"math/rand/v2"
 	"runtime"
+	"strconv"
 	"strings"
 	"sync"
 	"time"
@@ -33,8 +33,9 @@ func init() {
 				Procs:    16,
 				Rule: "case = one input byte string. Exhaustive: every string of length <= 7 (<= 9 thorough) over 7 bytes: one representative per tokenizer class (blank, newline, backslash, single quote, double quote) and two 'other' bytes; plus a position sweep (one byte of every value at every offset of otherwise plain text of every length 1..40 and around 64/128; pairs of special bytes at every two offsets), every single byte 0..255 in five contexts (classification of all byte values), inputs of 4090..65537 bytes whose tokens and quoted spans cross buffer boundaries, and random inputs up to 200 bytes over a wider alphabet (tab, CR, VT, FF, NBSP, $, `, #, non-ASCII). " +
 					"Per input: Split's fields and completeness flag vs the reference; Scanner over a one-byte-at-a-time reader and over fixed and random fragmentations, including readers that return the last bytes together with io.EOF and readers that sometimes return (0, nil) (Next/Text, Complete after the last token, Next stays false and Err stays io.EOF afterwards); Each with early stop; Scanner.Split; Rest called after the k-th token for every k must yield exactly input[offset_k:] (also when Rest is asked for twice, a few bytes read through the first reader and the remainder through the second) and Next must then stay false; every rune U+0080..U+FFFF (and a stride of the other planes) at the start of the input and in every quoting context, plus byte-order marks, '#!', CR LF and escape sequences; a reader that fails with a non-EOF error must surface through Err; remainders from Rest kept unread while their scanners are dropped, garbage collections are forced and new scanners are created and used, then read and compared. Complete inputs without other metacharacters and without unquoted newlines are also split by dash and 'bash +B' (length <= 6 exhaustive). Reset reuse and the pooled Split run concurrently under -race. " +
+					"Lockstep readers (the other end of a prompt-and-response exchange, which sends its next piece only after the caller has received every token completed by the pieces sent so far): a Read issued while such a token is still withheld would never return there, and is reported. " +
 					"distinct = the input (enumerated); non-trivial = it contains a quote or backslash",
-				Required:     []string{"inputs", "state_class_pairs_covered_of_42", "scanner_fragmentations", "rest_calls", "shell_inputs_dash", "shell_inputs_bash", "incomplete_inputs", "all_byte_values", "concurrent_splits", "long_inputs", "rest_after_reset", "rest_asked_twice", "rune_sweep_inputs", "position_sweep_inputs", "rest_readers_kept_across_gc", "reset_after_rest", "reset_onto_own_rest", "huge_inputs_one_byte_reads"},
+				Required:     []string{"inputs", "state_class_pairs_covered_of_42", "scanner_fragmentations", "rest_calls", "shell_inputs_dash", "shell_inputs_bash", "incomplete_inputs", "all_byte_values", "concurrent_splits", "long_inputs", "rest_after_reset", "rest_asked_twice", "rune_sweep_inputs", "position_sweep_inputs", "rest_readers_kept_across_gc", "reset_after_rest", "reset_onto_own_rest", "huge_inputs_one_byte_reads", "lockstep_reader_scans"},
 				Exhaustive:   true,
 				Assumptions:  []string{"reference tokenizer written from XCU 2.2 with the package's documented deviation: inside double quotes a backslash escapes only the double quote, backslash and newline; $ and ` are ordinary bytes", "dash and bash (+B, LC_ALL=C) as installed"},
 				CoverPkgs:    []string{"github.com/creachadair/mds/shell"},
@@ -82,6 +83,13 @@ func refClass(b byte) int {
 
 // refSplit is the reference tokenizer. seen, if non-nil, records situations.
 func refSplit(in string, seen *[42]bool) (toks []refTok, complete bool) {
+	toks, complete, _ = refSplitOpen(in, seen)
+	return toks, complete
+}
+
+// refSplitOpen also reports whether the last token was ended by the end of
+// the input rather than by a blank or newline.
+func refSplitOpen(in string, seen *[42]bool) (toks []refTok, complete, open bool) {
 	var cur []byte
 	inWord := false // a token has been started (possibly still empty, e.g. '')
 	st := rsBreak
@@ -163,7 +171,7 @@ func refSplit(in string, seen *[42]bool) (toks []refTok, complete bool) {
 	if st != rsBreak {
 		toks = append(toks, refTok{string(cur), len(in)})
 	}
-	return toks, st == rsBreak || st == rsWord
+	return toks, st == rsBreak || st == rsWord, st != rsBreak
 }
 
 func refTexts(ts []refTok) []string {
@@ -172,6 +180,43 @@ func refTexts(ts []refTok) []string {
 		out[i] = t.Text
 	}
 	return out
+}
+
+// lockstepReader is the other end of a prompt-and-response exchange: it
+// delivers its data in pieces, and sends the next piece only once its peer has
+// acted on everything sent so far. The scanner's caller is that peer; it acts
+// on tokens. A Read that arrives while tokens that are already complete in
+// the delivered bytes (their closing blank or newline has been delivered) have
+// not been handed to the caller would never return in such an exchange; the
+// reader notes that instead of blocking, and carries on.
+type lockstepReader struct {
+	data      string
+	sizes     []int
+	k         int
+	delivered int
+	det       int   // tokens completed by the delivered bytes
+	ends      []int // for each token closed by a blank or newline: the offset just after that byte
+	got       *int  // tokens the caller has received
+	stuck     string
+}
+
+func (r *lockstepReader) Read(p []byte) (int, error) {
+	for r.det < len(r.ends) && r.ends[r.det] <= r.delivered {
+		r.det++
+	}
+	det := r.det
+	if *r.got < det && r.stuck == "" {
+		r.stuck = fmt.Sprintf("after %d bytes had been delivered (%d complete tokens among them) and the caller had been given %d tokens, the scanner asked its reader for more", r.delivered, det, *r.got)
+	}
+	if r.delivered == len(r.data) {
+		return 0, io.EOF
+	}
+	n := r.sizes[r.k%len(r.sizes)]
+	r.k++
+	n = min(n, len(p), len(r.data)-r.delivered)
+	copy(p, r.data[r.delivered:r.delivered+n])
+	r.delivered += n
+	return n, nil
 }
 
 // chunkReader delivers its data in pieces of the given sizes (cyclically).
@@ -276,6 +321,40 @@ func (m *c16mon) check(in string, r *rand.Rand, deep bool) bool {
 					c.Fail(data, "Err() after the end of input is %v, want io.EOF", sc.Err())
 					panic(errStop)
 				}
+			}
+		}
+		// a reader that waits for its peer: every token must be handed over before more input is asked for
+		{
+			_, _, open := refSplitOpen(in, nil)
+			var ends []int
+			for i, t := range want {
+				if i < len(want)-1 || !open {
+					ends = append(ends, t.End)
+				}
+			}
+			for li, sizes := range [][]int{{1}, {5, 2}, {4096}, {3, 64, 1}} {
+				n := 0
+				rd := &lockstepReader{data: in, sizes: sizes, ends: ends, got: &n}
+				sc := shell.NewScanner(rd)
+				var got []string
+				for sc.Next() {
+					got = append(got, sc.Text())
+					n++
+					if n > len(want)+3 {
+						break
+					}
+				}
+				c.Add("lockstep_reader_scans", 1)
+				c.Step()
+				if rd.stuck != "" {
+					c.Fail(data, "Scanner over a reader that sends the next piece (%v bytes at a time) only after the caller has received every token completed so far: %s; in a prompt-and-response exchange that Read never returns and the tokens are never yielded", sizes, rd.stuck)
+					panic(errStop)
+				}
+				if !equalStrings(got, wantTexts) {
+					c.Fail(data, "Scanner over a lockstep reader (%v bytes at a time) yields %q, reference %q", sizes, got, wantTexts)
+					panic(errStop)
+				}
+				_ = li
 			}
 		}
 		// Scanner.Split and Each with early stop
